@@ -373,7 +373,7 @@ class Result(object):
         os.makedirs(os.path.join(ROOT, 'evidence'), exist_ok=True)
         with open(os.path.join(ROOT, 'evidence', self.pid + '.json'), 'w') as f:
             json.dump(ev, f, indent=1, default=str, sort_keys=True)
-        for k in self.known:
+        for k in dict.fromkeys(self.known):
             print('KNOWN-FINDING: property=%s %s' % (self.pid, k))
         if self.violations:
             concrete = [v for v in self.violations if not v[2]]
